@@ -1537,7 +1537,7 @@ Definition w_translations : list stmt :=
 Theorem translations_provider_refuted :
   exists d d', proto_eq d d' /\ hook_free_ns d' = true
                /\ render false w_translations d = Ok (lit "S3CR3T")
-               /\ render false w_translations d' = PyExc AttributeError.
+               /\ render false w_translations d' = LErr LiquidTypeError None.
 Proof.
   exists [(lit "o", plain_obj 1 [(lit "gettext", VCallable (lit "S3CR3T"))])],
          [(lit "o", plain_obj 1 [(lit "secret", VStr (lit "S3CR3T"))])].
